@@ -60,9 +60,14 @@ type gitscannerResult struct {
 }
 
 func scanUnpushed(cb GitScannerFoundPointer, remote string) error {
-	logArgs := []string{
+	var logArgs []string
+	// commits made on a detached HEAD are referenced by no branch or tag
+	if _, err := git.ResolveRef("HEAD"); err == nil {
+		logArgs = append(logArgs, "HEAD")
+	}
+	logArgs = append(logArgs,
 		"--branches", "--tags", // include all locally referenced commits
-		"--not"} // but exclude everything that comes after
+		"--not") // but exclude everything that comes after
 
 	if len(remote) == 0 {
 		logArgs = append(logArgs, "--remotes")
